@@ -59,7 +59,7 @@ class Copeland(Suite):
 
 
 if __name__ == "__main__":
-    main("C13", [Copeland()],
+    main("C13", [Copeland()], gen_targets=['copeland', 'step6'],
          level_note="theorems for all tables / datasets / schemes; numpy argsort's order among equal scores is irrelevant because equal "
                     "scores share a bucket (proved: grouped)",
          rule="datasets of two partial rankings over {0,1,2} under the generic scheme (thorough: all 675 pairs) + random datasets <= 8 elements "
